@@ -66,7 +66,7 @@ def r_hatches(ctx: Ctx, rule: str):
         rep.ob(rule, f"ControlParser overrides {nm}", nm in cp.methods, construct=f"ControlParser.{nm}")
     mods = [m for m in (PARSER_MOD, SESSION_MOD, SERVER_MOD) if m in ctx.prog.modules]
     n_banned = 0
-    for f in ctx.prog.all_functions():
+    for f in ctx.prog.every_function():
         if f.module.name not in mods:
             continue
         for n in ctx.distinct_sites(ctx.nodes(f, lambda n: n.op == "call" and n.callee is not None and n.callee.kind == "ext" and n.callee.name in BANNED_CALLS)):
@@ -149,21 +149,32 @@ def r_hatches(ctx: Ctx, rule: str):
         raise AnalysisError("anchor: ControlParser.add_class_commands missing")
     sc = ctx.an.scope(acc)
     ck = None
+    ck_frame = (acc, None)
+    ctx.an.cfg(acc)
     for nm, hows in sc.defs.items():
         for h in hows:
             v = h[1] if h[0] == "assign" else None
+            fr_, env_ = acc, None
+            if isinstance(v, ast.Call) and not {k.arg for k in v.keywords} >= {"stream", "terminal_width"}:
+                # the record may be built by a helper spliced in (a private method / property of the parser returning it)
+                lv = ctx.vals.leaves(acc, None, v)
+                if len(lv) == 1 and lv[0][0] is not acc:
+                    fr_, env_, v = lv[0]
             if isinstance(v, ast.Call) and {k.arg for k in v.keywords} >= {"stream", "terminal_width"}:
-                ck = (nm, v)
+                ck, ck_frame = (nm, v), (fr_, env_)
             if isinstance(v, ast.Dict) and {getattr(k, "value", None) for k in v.keys} >= {"stream", "terminal_width"}:
-                ck = (nm, v)
+                ck, ck_frame = (nm, v), (fr_, env_)
     if ck is None:
         rep.ob(rule, "sub-parsers receive the parent's stream and width", None, func=acc, construct="(common kwargs not found)")
     else:
         nm, v = ck
         vals = {k.arg: k.value for k in v.keywords} if isinstance(v, ast.Call) else {k.value: x for k, x in zip(v.keys, v.values)}
-        P = ctx.eff.paths(acc)
-        rep.ob(rule, "sub-parsers write to the same stream as their parent", P.of(vals["stream"]) == "self._stream", func=acc, construct=v)
-        rep.ob(rule, "sub-parsers format for the same terminal width", P.of(vals["terminal_width"]) == "self._terminal_width", func=acc, construct=v)
+        def _path(e_):
+            p_ = ctx.eff.paths(ck_frame[0]).of(e_)
+            return ctx.eff.rebase(p_, ck_frame[0], ck_frame[1]) if (p_ is not None and ck_frame[0] is not acc) else p_
+
+        rep.ob(rule, "sub-parsers write to the same stream as their parent", _path(vals["stream"]) == "self._stream", func=acc, construct=v)
+        rep.ob(rule, "sub-parsers format for the same terminal width", _path(vals["terminal_width"]) == "self._terminal_width", func=acc, construct=v)
         adders = ctx.distinct_sites(ctx.nodes(acc, lambda n: ctx.is_call_to(n, "add_function_command", "add_property_command")))
         rep.floor(rule, "command adders called by add_class_commands", len(adders), 2)
         for a in adders:
@@ -1458,7 +1469,7 @@ def r_total_indexing(ctx: Ctx, rule: str) -> None:
     rep = ctx.rep
     rep.rule(rule, "TOTAL-INDEXING: on the path that builds the commands (control.parser, internals.helpers.get_first_doc_line) a constant index "
                    "is applied only to sequences that cannot be too short")
-    funcs = [f for f in ctx.prog.all_functions() if f.module.name == PARSER_MOD or f.qual.endswith("helpers.get_first_doc_line")]
+    funcs = [f for f in ctx.prog.every_function() if f.module.name == PARSER_MOD or f.qual.endswith("helpers.get_first_doc_line")]
     n = 0
     for f in funcs:
         sc = ctx.an.scope(f)
@@ -1854,7 +1865,7 @@ def r_surface(ctx: Ctx, rule: str):
         rep.ob(rule, f"{nm} names the command after the member with underscores as dashes", ok, func=m, construct="command name")
     # help stays enabled
     bad = []
-    for fn in ctx.prog.all_functions():
+    for fn in ctx.prog.every_function():
         if fn.module.name in (PARSER_MOD, SESSION_MOD):
             for node in ctx.an.scope(fn)._own_nodes():
                 if isinstance(node, ast.keyword) and node.arg == "add_help" and isinstance(node.value, ast.Constant) and node.value.value is False:
@@ -1894,7 +1905,7 @@ def r_annotation_kinds(ctx: Ctx, rule: str):
         if isinstance(node, ast.Call) and isinstance(node.func, ast.Name) and node.func.id == cls_param:
             consumer_ops.append((gw, node, "is called as a converter"))
     resolves = False
-    for fn in [x for x in ctx.prog.all_functions() if x.module.name == PARSER_MOD]:
+    for fn in [x for x in ctx.prog.every_function() if x.module.name == PARSER_MOD]:
         for node in ast.walk(fn.node):
             if isinstance(node, ast.Call):
                 nm = ast.unparse(node.func)
@@ -1927,6 +1938,41 @@ def r_annotation_kinds(ctx: Ctx, rule: str):
                                     "AttributeError for both pool classes and every handshake fails")
     if not consumer_ops:
         rep.ob(rule, "the annotation objects the parser receives support what it does with them", None, func=gw, construct="(consumer operations not found)")
+    # an annotation may be ANY object a pool subclass chose (typing.Annotated[...] with unhashable metadata, objects with their own __eq__):
+    # the parser may look at it by identity, pass it on, call it, print it - but not hash it or compare it by value
+    def _ann_uses(fn: FuncInfo, is_ann) -> List[Tuple[ast.AST, str]]:
+        out: List[Tuple[ast.AST, str]] = []
+        for node in ast.walk(fn.node):
+            if isinstance(node, ast.Compare):
+                operands = [node.left] + list(node.comparators)
+                for i, op in enumerate(node.ops):
+                    a_, b_ = operands[i], operands[i + 1]
+                    if isinstance(op, (ast.Eq, ast.NotEq)) and (is_ann(a_) or is_ann(b_)):
+                        out.append((node, "is compared by value (==)"))
+                    if isinstance(op, (ast.In, ast.NotIn)) and is_ann(a_):
+                        out.append((node, "is searched for with `in` (hash / ==)"))
+            if isinstance(node, ast.Subscript) and is_ann(node.slice) and not (isinstance(node.value, ast.Name) and node.value.id in ("Iterable", "Type", "Optional")):
+                out.append((node, "is used as a key (hash)"))
+            if isinstance(node, ast.Call) and isinstance(node.func, ast.Attribute) and node.func.attr in ("get", "pop", "setdefault", "index", "count", "add", "__contains__", "__getitem__") \
+                    and node.args and is_ann(node.args[0]):
+                out.append((node, f"is looked up with .{node.func.attr}() (hash / ==)"))
+            if isinstance(node, ast.Call) and isinstance(node.func, ast.Name) and node.func.id == "hash" and node.args and is_ann(node.args[0]):
+                out.append((node, "is hashed"))
+            if isinstance(node, (ast.Set, ast.Dict)):
+                elts = node.elts if isinstance(node, ast.Set) else [k for k in node.keys if k is not None]
+                if any(is_ann(e_) for e_ in elts):
+                    out.append((node, "is put into a set / used as a dict key (hash)"))
+        return out
+
+    gt_param = gt.param_names()[0]
+    gt_aliases = {gt_param} | {t_.id for st_ in ast.walk(gt.node) if isinstance(st_, ast.Assign) and isinstance(st_.value, ast.Name) and st_.value.id == gt_param
+                               for t_ in st_.targets if isinstance(t_, ast.Name)}
+    bad_uses = _ann_uses(gt, lambda e_: isinstance(e_, ast.Name) and e_.id in gt_aliases) + \
+        _ann_uses(afa, lambda e_: isinstance(e_, ast.Attribute) and e_.attr == "annotation")
+    rep.ob(rule, "an annotation object is only looked at by identity (`is`), passed on, called or printed - never hashed or compared by value "
+                 "(a pool subclass may annotate with unhashable objects, e.g. Annotated[int, <a dataclass instance>])", not bad_uses,
+           func=gt, construct=bad_uses[0][0] if bad_uses else "annotation uses: identity tests only",
+           detail="" if not bad_uses else f"the annotation {bad_uses[0][1]}: for such an annotation the command cannot be registered and the handshake of that pool class fails")
     # the `is bool` identity needs the class object as well
     for t in [n for n in ast.walk(afa.node) if isinstance(n, ast.Compare) and ast.unparse(n).replace(" ", "").endswith(".annotationisbool")]:
         ok = not affected or resolves
@@ -2005,3 +2051,31 @@ def r_omitted_params(ctx: Ctx, rule: str) -> None:
     names = {m.group(1) or m.group(2) for t in tests for m in [re.fullmatch(r"\w+\.name=='(\w+)'|'(\w+)'==\w+\.name", ast.unparse(t.ast).replace(" ", "").replace('"', "'"))] if m}
     rep.ob(rule, "the session supplies the pool for the parameter named 'self' (the name the parser omits)", names == {"self"}, func=f,
            construct=tests[0] if tests else "(no test of the parameter name)", detail=str(sorted(names)))
+
+
+def r_wire_codec(ctx: Ctx, rule: str) -> None:
+    """WIRE-CODEC.  The client sends `cmd.encode()` and prints `reply.decode()` (UTF-8, strict); the session must read and write the same
+    codec - a command line decoded as anything else reaches the pool method with different string arguments than the method call the
+    client meant (group names, cancel messages, strings inside literals).  Every `bytes.decode` / `str.encode` in the control package
+    uses the default codec (no argument, or the constant 'utf-8') and the default error handling."""
+    rep = ctx.rep
+    rep.rule(rule, "WIRE-CODEC: every .decode() / .encode() of the control package uses UTF-8 with strict error handling (the default), on both "
+                   "sides of the wire: what the session parses is the text the client typed")
+    sites = []
+    for m in ctx.prog.modules.values():
+        if not (m.name.startswith("control") or m.name in ("internals.helpers",)):
+            continue
+        for fn in [x for x in ctx.prog.every_function() if x.module is m]:
+            for node in ctx.an.scope(fn)._own_nodes():
+                if isinstance(node, ast.Call) and isinstance(node.func, ast.Attribute) and node.func.attr in ("decode", "encode"):
+                    sites.append((fn, node))
+    rep.floor(rule, "decode / encode calls in the control package", len(sites), 6)
+    for fn, node in sites:
+        enc = node.args[0] if node.args else next((k.value for k in node.keywords if k.arg == "encoding"), None)
+        if enc is not None and not isinstance(enc, ast.Constant):
+            enc = ctx.vals.const(fn, enc) or enc
+        enc_ok = enc is None or (isinstance(enc, ast.Constant) and isinstance(enc.value, str) and enc.value.lower().replace("_", "-") in ("utf-8", "utf8"))
+        err = node.args[1] if len(node.args) > 1 else next((k.value for k in node.keywords if k.arg == "errors"), None)
+        err_ok = err is None or (isinstance(err, ast.Constant) and err.value == "strict")
+        rep.ob(rule, "the wire text is UTF-8, decoded / encoded strictly", enc_ok and err_ok and len(node.args) <= 2, func=fn, construct=node,
+               detail="" if enc_ok and err_ok else "another codec or error handler on one side of the wire changes the string arguments the pool method receives")
